@@ -14,6 +14,12 @@ Oracle : ground-truth DAG G.  skeleton(G); path-based d-separation (rv.oracle.DS
          (<= 10 undirected edges) or by an own two-sided Dor-Tarsi (cross-checked against the brute force
          on all 4096 mixed graphs on 4 nodes); for every extendable PDAG the result must be acyclic, have the
          same nodes and skeleton, keep every directed edge and contain no v-structure the PDAG did not have.
+Known-finding keys are assigned only when (1) a structural classifier recognises the mechanism - the first
+orientation event contradicting the true CPDAG has the shape "X->Z--Y oriented Z->Y while Y->X exists", resp. the
+PDAG admits an elimination order on which only a one-sided clique test gets stuck - and (2) the same call re-run
+with exactly that one-directional adjacency test neutralised (class `Neutral`) gives a correct answer.  Everything
+else keeps a generic key (c12:wrong-cpdag, c12:wrong-dag, c12:todag-wrong-extension, ...) and fails the run.
+RV_C12_SCALE=<0..1> shrinks the thorough tier (development only).
 """
 import itertools
 import os
@@ -45,11 +51,12 @@ def _ncases(tier):
 
 
 PLAN = {
-    "quick": {"cases": _ncases("quick"), "hashseeds": 3, "shards": 5, "timeout": 420, "min_nontrivial": 2000},
+    "quick": {"cases": _ncases("quick"), "hashseeds": 3, "shards": 5, "timeout": 600, "min_nontrivial": 2000},
     "thorough": {"cases": _ncases("thorough"), "hashseeds": 8, "shards": 2, "timeout": 3400,
                  "min_nontrivial": int(_ncases("thorough") * 0.8)},
 }
-RULE = ("(a) EXHAUSTIVE: every labelled DAG on 1-4 nodes (572; thorough also all 29 281 on 5 nodes) as ground truth, "
+RULE = ("(a) EXHAUSTIVE: every labelled DAG on 1-4 nodes (572, each under 2-3 labelings / variable orders; thorough also "
+        "all 29 281 on 5 nodes, quick a seed-dependent slice of 1600 of them) as ground truth, "
         "node names / column order permuted per seed, x oracle mode {d-separation callable, independence_match with "
         "all elementary true triples} x variant {orig, stable, parallel} x return type {skeleton, pdag|cpdag, dag} x "
         "max_cond_vars in {max degree, n, default}; (b) random DAGs on 5-7 (thorough 5-8) nodes, same grid (callable; "
@@ -516,6 +523,60 @@ def read_pdag(p):
     return nodes, d, u
 
 
+class Neutral:
+    """Confirmation of a classified mechanism by re-running the same call with the triggering feature
+    neutralised: while active, the two one-directional adjacency tests named in the known findings
+      site "r1"     PC.skeleton_to_pdag   `if not pdag.has_edge(X, Y)`      (guard of rule X->Z--Y => Z->Y)
+      site "clique" PDAG.to_dag           `pdag.has_edge(Y, Z)`             (Dor-Tarsi clique test)
+    see an edge in either direction.  Implemented from outside by a call-site aware nx.DiGraph.has_edge;
+    `hits` counts how often a one-directional answer was overridden (0 => nothing neutralised)."""
+
+    def __init__(self, sites):
+        self.sites = set(sites)
+        self.hits = 0
+
+    def __enter__(self):
+        import linecache
+        import sys
+        import networkx as nx
+        self._nx = nx
+        self._own = nx.DiGraph.__dict__.get("has_edge")       # None: inherited from nx.Graph
+        orig = nx.DiGraph.has_edge
+        me = self
+
+        def has_edge(g, u, v):
+            r = orig(g, u, v)
+            if r:
+                return r
+            f = sys._getframe(1)
+            fn = f.f_code.co_filename
+            if "r1" in me.sites and fn.endswith("PC.py") and f.f_code.co_name == "skeleton_to_pdag":
+                if linecache.getline(fn, f.f_lineno).strip().startswith("if not pdag.has_edge(X, Y)"):
+                    if orig(g, v, u):
+                        me.hits += 1
+                        return True
+            elif "clique" in me.sites and fn.endswith("DAG.py"):
+                if linecache.getline(fn, f.f_lineno).strip().startswith("pdag.has_edge(Y, Z)"):
+                    if orig(g, v, u):
+                        me.hits += 1
+                        return True
+            return r
+
+        nx.DiGraph.has_edge = has_edge
+        return self
+
+    def __exit__(self, *a):
+        if self._own is None:
+            del self._nx.DiGraph.has_edge
+        else:
+            self._nx.DiGraph.has_edge = self._own
+        return False
+
+
+K_R1 = "c12:r1-fires-on-adjacent-pair"
+K_CLIQUE = "c12:todag-one-sided-clique-test"
+
+
 # ------------------------------------------------------------------ setup: cross-check the shared Meek oracle
 def setup(ctx):
     bad = 0
@@ -662,25 +723,10 @@ def check_dag_item(ctx, item, tier):
                         ctx.expect(good, "c12:wrong-sepset",
                                    f"{label}: stored separating set {Z!r} for {x!r},{y!r} does not d-separate them", **det)
 
-            # ---------- partially directed result
-            pkey = None                      # mechanism key if this variant's CPDAG is wrong
-            r = run(item["pdag_word"])
-            got = None
-            if ctx.failed(r):
-                _exc(ctx, r, f"{label}.estimate({item['pdag_word']})", **det)
-            else:
-                try:
-                    if not isinstance(r, PDAG):
-                        raise TypeError(f"result is {type(r).__name__}, not PDAG")
-                    got = read_pdag(r)
-                    attr_d = {tuple(e) for e in r.directed_edges}
-                    attr_u = {frozenset(e) for e in r.undirected_edges}
-                except Exception as e:
-                    ctx.violation("c12:malformed-result", f"{label}: cannot read PDAG result: {e!r}", **det)
-                    got = None
-            # instrumented replay of the orientation phase on the skeleton this variant returned
+            # ---------- instrumented replay of the orientation phase on the skeleton this variant returned
             replay = None
             why = (None, "no replay")
+            r1_structural = False            # first wrong orientation event has the shape of the r1 defect
             if sk_obj is not None:
                 LogGraph, LogDiGraph = _log_classes()
                 try:
@@ -701,13 +747,39 @@ def check_dag_item(ctx, item, tier):
                         ctx.note("orientation-events", len(events))
                         if (replay[1], replay[2]) != (tdir, tund):
                             why = classify_events(events, tdir)
-                            k = f"c12:{why[0]}" if why[0] else "c12:wrong-cpdag"
+                            r1_structural = why[0] == "r1-fires-on-adjacent-pair"
+                            k = "c12:wrong-cpdag"
+                            if r1_structural:
+                                # confirm: same call with the one-directional guard neutralised must be exact
+                                with Neutral({"r1"}) as nt:
+                                    r2 = ctx.call(PC.skeleton_to_pdag, sk_obj, seps)
+                                try:
+                                    if not ctx.failed(r2) and nt.hits > 0 and read_pdag(r2)[1:] == (tdir, tund):
+                                        k = K_R1
+                                except Exception:
+                                    pass
                             ctx.violation(k, f"{label}: PC.skeleton_to_pdag != CPDAG: got directed "
                                           f"{sorted(replay[1], key=repr)} undirected {sorted(map(sorted, replay[2]))}; expected "
                                           f"directed {sorted(tdir, key=repr)} undirected {sorted(map(sorted, tund))}; "
                                           f"first wrong event: {why[1]}", **det)
                         else:
                             ctx.ok()
+
+            # ---------- partially directed result
+            r = run(item["pdag_word"])
+            got = None
+            if ctx.failed(r):
+                _exc(ctx, r, f"{label}.estimate({item['pdag_word']})", **det)
+            else:
+                try:
+                    if not isinstance(r, PDAG):
+                        raise TypeError(f"result is {type(r).__name__}, not PDAG")
+                    got = read_pdag(r)
+                    attr_d = {tuple(e) for e in r.directed_edges}
+                    attr_u = {frozenset(e) for e in r.undirected_edges}
+                except Exception as e:
+                    ctx.violation("c12:malformed-result", f"{label}: cannot read PDAG result: {e!r}", **det)
+                    got = None
             if got is not None:
                 gn, gd, gu = got
                 if (gd, gu) == (tdir, tund):
@@ -716,16 +788,20 @@ def check_dag_item(ctx, item, tier):
                                f"{label}: PDAG.directed_edges/undirected_edges {sorted(attr_d, key=repr)} / "
                                f"{sorted(map(sorted, attr_u))} disagree with its graph", **det)
                 else:
-                    if replay is not None and (replay[1], replay[2]) == (gd, gu) and why[0]:
-                        pkey = f"c12:{why[0]}"
-                    else:
-                        pkey = "c12:wrong-cpdag"
-                    cyc = not acyclic(nodes, gd)
+                    k = "c12:wrong-cpdag"
+                    if r1_structural:
+                        with Neutral({"r1"}) as nt:
+                            r2 = run(item["pdag_word"])
+                        try:
+                            if not ctx.failed(r2) and nt.hits > 0 and read_pdag(r2)[1:] == (tdir, tund):
+                                k = K_R1
+                        except Exception:
+                            pass
                     gvs = pdag_vstructs(gd, skel)
                     parts = []
                     if {frozenset(e) for e in gd} | gu != skel:
                         parts.append("skeleton changed")
-                    if cyc:
+                    if not acyclic(nodes, gd):
                         parts.append("directed cycle")
                     if gvs - tvs:
                         parts.append(f"spurious v-structure {sorted(map(repr, gvs - tvs))[:2]}")
@@ -735,7 +811,7 @@ def check_dag_item(ctx, item, tier):
                         parts.append(f"compelled edge not oriented {sorted(tdir - gd, key=repr)[:3]}")
                     if gd - tdir:
                         parts.append(f"edge oriented that is reversible or opposite {sorted(gd - tdir, key=repr)[:3]}")
-                    ctx.violation(pkey, f"{label}: {item['pdag_word']} result is not the CPDAG: " + "; ".join(parts) +
+                    ctx.violation(k, f"{label}: {item['pdag_word']} result is not the CPDAG: " + "; ".join(parts) +
                                   f"; got directed {sorted(gd, key=repr)} undirected {sorted(map(sorted, gu))}; "
                                   f"mechanism: {why[1]}", **det)
                 if gn != set(nodes):
@@ -748,33 +824,52 @@ def check_dag_item(ctx, item, tier):
                     ctx.ok()
 
             # ---------- fully directed result
+            def dag_problems(r):
+                if not isinstance(r, DAG):
+                    raise TypeError(f"result is {type(r).__name__}, not DAG")
+                dn = set(r.nodes())
+                de = [tuple(e) for e in r.edges()]
+                dsk = {frozenset(e) for e in de}
+                problems = []
+                if len(dsk) != len(de) or not acyclic(dn | set(nodes), de):
+                    problems.append("directed cycle")
+                if dsk != skel:
+                    problems.append("skeleton differs")
+                dvs = oracle.vstructures(list(nodes), de) if dn <= set(nodes) else set()
+                if dvs != tvs:
+                    problems.append(f"v-structures differ: spurious {sorted(map(repr, dvs - tvs))[:2]} missing "
+                                    f"{sorted(map(repr, tvs - dvs))[:2]}")
+                return dn, de, problems
+
             r = run("dag")
             if ctx.failed(r):
                 _exc(ctx, r, f"{label}.estimate(dag)", **det)
             else:
                 try:
-                    if not isinstance(r, DAG):
-                        raise TypeError(f"result is {type(r).__name__}, not DAG")
-                    dn = set(r.nodes())
-                    de = [tuple(e) for e in r.edges()]
+                    dn, de, problems = dag_problems(r)
                 except Exception as e:
                     ctx.violation("c12:malformed-result", f"{label}: cannot read DAG result: {e!r}", **det)
                 else:
-                    dsk = {frozenset(e) for e in de}
-                    problems = []
-                    if len(dsk) != len(de) or not acyclic(dn | set(nodes), de):
-                        problems.append("directed cycle")
-                    if dsk != skel:
-                        problems.append("skeleton differs")
-                    dvs = oracle.vstructures(list(nodes), de) if dn <= set(nodes) else set()
-                    if dvs != tvs:
-                        problems.append(f"v-structures differ: spurious {sorted(map(repr, dvs - tvs))[:2]} missing "
-                                        f"{sorted(map(repr, tvs - dvs))[:2]}")
                     if problems:
-                        if pkey:
-                            k = pkey                 # consequence of the wrong CPDAG of the same variant
-                        else:
-                            k = classify_todag(nodes, tdir, tund, None)
+                        # structural preconditions of the two known mechanisms, each confirmed by a neutralised re-run
+                        k = "c12:wrong-dag"
+                        clique_structural = one_sided_stuck_reachable(nodes, tdir, tund)
+                        tries = []
+                        if r1_structural:
+                            tries.append(({"r1"}, K_R1))
+                        if clique_structural:
+                            tries.append(({"clique"}, K_CLIQUE))
+                        if r1_structural and clique_structural:
+                            tries.append(({"r1", "clique"}, K_R1))
+                        for sites, key in tries:
+                            with Neutral(sites) as nt:
+                                r2 = run("dag")
+                            try:
+                                if not ctx.failed(r2) and nt.hits > 0 and not dag_problems(r2)[2]:
+                                    k = key
+                                    break
+                            except Exception:
+                                pass
                         ctx.violation(k, f"{label}: dag result is not Markov equivalent to the truth: "
                                       + "; ".join(problems) + f"; got {sorted(de, key=repr)}", **det)
                     else:
@@ -795,13 +890,16 @@ def check_dag_item(ctx, item, tier):
 
 
 # ------------------------------------------------------------------ PDAG.to_dag
-def classify_todag(nodes, D, U, fallback):
-    """Mechanism key for a wrong to_dag result on an extendable PDAG."""
-    if fallback is False:
-        return "c12:todag-wrong-extension"
-    if one_sided_stuck_reachable(nodes, D, U):
-        return "c12:todag-one-sided-clique-test"
-    return "c12:todag-wrong-extension"
+def confirm_todag(ctx, build, judge):
+    """Known clique-test mechanism confirmed: the same PDAG through to_dag with the clique test made two-sided
+    yields a consistent extension."""
+    with Neutral({"clique"}) as nt:
+        p = ctx.call(build)
+        r2 = None if ctx.failed(p) else ctx.call(p.to_dag)
+    try:
+        return r2 is not None and not ctx.failed(r2) and nt.hits > 0 and not judge(r2)
+    except Exception:
+        return False
 
 
 def call_to_dag(ctx, pdag):
@@ -848,6 +946,29 @@ def check_pdag_view(ctx, view, ext, label):
     p = ctx.call(build)
     if ctx.failed(p):
         return _exc(ctx, p, f"{label}: PDAG constructor", **det)
+    skel = {frozenset(e) for e in D} | {frozenset(e) for e in U}
+    v0 = pdag_vstructs(D, skel)
+
+    def judge(r):
+        """list of problems of a to_dag result (raises if the result cannot be read)."""
+        if not isinstance(r, DAG):
+            raise TypeError(f"result is {type(r).__name__}")
+        rn = set(r.nodes())
+        re_ = [tuple(e) for e in r.edges()]
+        rsk = {frozenset(e) for e in re_}
+        problems = []
+        if len(rsk) != len(re_) or not acyclic(rn | set(nodes), re_):
+            problems.append("result has a directed cycle")
+        if rsk != skel:
+            problems.append(f"skeleton changed: extra {sorted(map(sorted, rsk - skel))[:3]} missing "
+                            f"{sorted(map(sorted, skel - rsk))[:3]}")
+        if not set(D) <= set(re_):
+            problems.append(f"directed edges lost/reversed: {sorted(set(D) - set(re_), key=repr)[:3]}")
+        newv = pdag_vstructs(re_, rsk | skel) - v0
+        if newv:
+            problems.append(f"new v-structure {sorted(map(repr, newv))[:2]}")
+        return problems
+
     r, fallback = call_to_dag(ctx, p)
     if fallback:
         ctx.note("todag-fallback-branch-on-extendable")
@@ -855,28 +976,17 @@ def check_pdag_view(ctx, view, ext, label):
     if ctx.failed(r):
         return _exc(ctx, r, f"{label}: PDAG.to_dag", **det)
     try:
-        if not isinstance(r, DAG):
-            raise TypeError(f"result is {type(r).__name__}")
+        problems = judge(r)
         rn = set(r.nodes())
         re_ = [tuple(e) for e in r.edges()]
     except Exception as e:
         return ctx.violation("c12:malformed-result", f"{label}: cannot read to_dag result: {e!r}", **det)
-    skel = {frozenset(e) for e in D} | {frozenset(e) for e in U}
-    v0 = pdag_vstructs(D, skel)
-    rsk = {frozenset(e) for e in re_}
-    problems = []
-    if len(rsk) != len(re_) or not acyclic(rn | set(nodes), re_):
-        problems.append("result has a directed cycle")
-    if rsk != skel:
-        problems.append(f"skeleton changed: extra {sorted(map(sorted, rsk - skel))[:3]} missing "
-                        f"{sorted(map(sorted, skel - rsk))[:3]}")
-    if not set(D) <= set(re_):
-        problems.append(f"directed edges lost/reversed: {sorted(set(D) - set(re_), key=repr)[:3]}")
-    newv = pdag_vstructs(re_, rsk | skel) - v0
-    if newv:
-        problems.append(f"new v-structure {sorted(map(repr, newv))[:2]}")
     if problems:
-        k = classify_todag(nodes, D, U, fallback)
+        k = "c12:todag-wrong-extension"
+        # structural: the 'no faithful extension' branch was taken on an extendable PDAG and an elimination order
+        # exists on which only the one-sided clique test gets stuck; confirmed by the two-sided re-run
+        if fallback and one_sided_stuck_reachable(nodes, D, U) and confirm_todag(ctx, build, judge):
+            k = K_CLIQUE
         ctx.violation(k, f"{label}: to_dag on an extendable PDAG: " + "; ".join(problems) +
                       f"; result {sorted(re_, key=repr)}; fallback branch taken: {fallback}", **det)
     else:
